@@ -6,9 +6,27 @@ import (
 	"crypto"
 	"io"
 	"sync"
+	"time"
 
 	"golang.org/x/crypto/internal/verifrt"
 )
+
+// c31Join waits for the writer goroutines. Under the engine a writer that can never proceed
+// makes every thread blocked, which ends the path as BLOCKED (reported as a violation);
+// natively the same situation is turned into a failed assertion by a watchdog.
+func c31Join(wg *sync.WaitGroup) {
+	if verifrt.Symbolic() {
+		wg.Wait()
+		return
+	}
+	done := make(chan struct{})
+	go func() { wg.Wait(); close(done) }()
+	select {
+	case <-done:
+	case <-time.After(3 * time.Second):
+		verifrt.Assert(false, "no writer stays blocked")
+	}
+}
 
 // ---- mock keying transport: the peer is scripted by the harness through `in`, everything the
 // handshakeTransport sends is logged in `out` in transmission order ----
@@ -255,7 +273,7 @@ func c31Scenario(nA, nB, at int, peerInitiated bool, sched int) {
 			}
 		}
 	}
-	wg.Wait()
+	c31Join(&wg)
 	verifrt.Yield()
 	verifrt.Assert(!errA && !errB, "writePacket succeeds while the connection is healthy")
 	kexes := c31CheckOut(conn, nA, nB, pay)
@@ -271,6 +289,91 @@ func Verif_C31_RekeyLocal() { c31Scenario(2, 2, verifrt.Choose(0, 2), false, 1) 
 
 // Verif_C31_RekeyPeer: peer-initiated re-key, same shape.
 func Verif_C31_RekeyPeer() { c31Scenario(2, 2, verifrt.Choose(0, 2), true, 1) }
+
+// c31QueueFull: the pending-packet queue overflows during a key exchange. With our KEXINIT out
+// and the peer silent, writer A queues maxPendingPackets packets; writers B and C (own
+// goroutines) then block in writePacket on writeCond. The peer completes the exchange and, when
+// `again` is set, immediately starts another one (its next KEXINIT follows its NEWKEYS), so a
+// writer woken by the first completion may find the next exchange already open. Obligations as
+// in c31Scenario plus: both blocked writers return (no goroutine stays blocked: a deadlock is
+// reported as a violation), and their packets are transmitted outside every KEXINIT..NEWKEYS
+// window.
+func c31QueueFull(again bool, sched int) {
+	verifrt.Goroutines(true)
+	verifrt.SchedBound(sched)
+	conn := &c31Conn{in: make(chan []byte, 16)}
+	c31PeerKex(conn, false)
+	t := c31Server(conn, 0)
+	verifrt.Assert(t.waitSession() == nil, "initial key exchange completes")
+	nA := maxPendingPackets
+	pay := verifrt.Bytes(2)
+	t.requestKeyExchange()
+	verifrt.Yield() // our KEXINIT is out, the exchange waits for the peer
+	errs := 0
+	for i := 0; i < nA; i++ {
+		if t.writePacket([]byte{msgChannelData, 'A', byte(i), 0}) != nil {
+			errs++
+		}
+	}
+	verifrt.Assert(len(t.pendingPackets) == maxPendingPackets, "queue is full")
+	var wg sync.WaitGroup
+	for w := 0; w < 2; w++ {
+		w := w
+		wg.Add(1)
+		go func() {
+			defer wg.Done()
+			if t.writePacket([]byte{msgChannelData, byte('B' + w), 0, pay[w]}) != nil {
+				errs++
+			}
+		}()
+	}
+	verifrt.Yield() // B and C are parked on writeCond
+	c31PeerKex(conn, false)
+	if again {
+		c31PeerKex(conn, false)
+	}
+	c31Join(&wg)
+	verifrt.Yield()
+	verifrt.Assert(errs == 0, "writePacket succeeds while the connection is healthy")
+	inKex := false
+	nextA, gotB, gotC, kexes := 0, 0, 0, 0
+	for _, p := range conn.out {
+		switch p[0] {
+		case msgKexInit:
+			verifrt.Assert(!inKex, "no second KEXINIT before NEWKEYS")
+			inKex = true
+		case msgNewKeys:
+			inKex = false
+			kexes++
+		case msgChannelData:
+			verifrt.Assert(!inKex, "no application packet between KEXINIT and NEWKEYS")
+			switch p[1] {
+			case 'A':
+				verifrt.Assert(int(p[2]) == nextA, "queued packets flushed exactly once and in order")
+				nextA++
+			case 'B':
+				verifrt.Assert(p[3] == pay[0], "blocked writer's payload intact")
+				gotB++
+			case 'C':
+				verifrt.Assert(p[3] == pay[1], "blocked writer's payload intact")
+				gotC++
+			}
+		}
+	}
+	verifrt.Assert(nextA == nA && gotB == 1 && gotC == 1, "every accepted application packet was transmitted exactly once")
+	want := 2
+	if again {
+		want = 3
+	}
+	verifrt.Assert(kexes == want, "every key exchange completed")
+	verifrt.Reach("queue-full-done")
+}
+
+// Verif_C31_QueueFull: one exchange / QueueFullAgain: back-to-back exchanges; schedules with up
+// to 1 (thorough: 2) voluntary context switches.
+func Verif_C31_QueueFull()       { c31QueueFull(false, 1) }
+func Verif_C31_QueueFullAgain()  { c31QueueFull(true, 1) }
+func Verif_C31_QueueFullAgainT() { c31QueueFull(true, 2) }
 
 // Verif_C31_RekeyLocalT / PeerT: thorough variants: 3+2 packets, 2 voluntary context switches.
 func Verif_C31_RekeyLocalT() { c31Scenario(3, 2, verifrt.Choose(0, 3), false, 2) }
